@@ -227,7 +227,7 @@ func cmdTlog(o opts) {
 					if !thorough && len(file) > 400 && cut%3 != int(o.seed%3) && cut != len(file) {
 						continue
 					}
-					rec.Put(M{"e": "TLOGR", "dl": dl, "file": B(file), "cut": cut, "results": readTlog(file[:cut], drw, n),
+					rec.Put(M{"e": "TLOGR", "dl": dl, "file": B(file), "cut": cut, "results": readTlog(file[:cut], drw, n, cut),
 						"written": n})
 				}
 			}
@@ -236,8 +236,10 @@ func cmdTlog(o opts) {
 	rec.Close()
 }
 
-func readTlog(data []byte, drw *dialect.ReadWriter, n int) []M {
-	rd := &tlog.Reader{ByteReader: &chunkReader{data: data, limit: len(data), sched: []int{7}, err: errSentinel}, DialectRW: drw}
+func readTlog(data []byte, drw *dialect.ReadWriter, n int, variant int) []M {
+	// the file arrives from its source in pieces: 7 bytes at a time, all at once, byte by byte, 3 bytes then the rest
+	sched := [][]int{{7}, nil, {1}, {3, 1 << 20}, {8, 5}}[variant%5]
+	rd := &tlog.Reader{ByteReader: &chunkReader{data: data, limit: len(data), sched: sched, err: errSentinel}, DialectRW: drw}
 	if err := rd.Initialize(); err != nil {
 		fatal("tlog reader: %v", err)
 	}
